@@ -244,6 +244,11 @@ func (e *idxEnv) mutate(r *rand.Rand, ids []string, n int) (idxMut, interface{},
 	before := e.model[id]
 	wt := e.st.Write(id)
 	defer wt.Close()
+	// a transaction may read before it writes (and, see mutateTxn, write more than once)
+	if r.Intn(3) == 0 {
+		wt.Value()
+		wt.Exists()
+	}
 	m := idxMut{ID: id}
 	k := idxKeys[r.Intn(len(idxKeys))]
 	if r.Intn(6) == 0 {
@@ -289,6 +294,61 @@ func (e *idxEnv) mutate(r *rand.Rand, ids []string, n int) (idxMut, interface{},
 		e.model[id] = v
 	}
 	return m, before, e.model[id]
+}
+
+// mutateTxn performs a write transaction with a read followed by two or three
+// mutations of the same id (each mutation is one index task). Returns the
+// mutations in order with the model value before and after each.
+func (e *idxEnv) mutateTxn(r *rand.Rand, ids []string, n int) (muts []idxMut, befores, afters []interface{}) {
+	id := ids[r.Intn(len(ids))]
+	wt := e.st.Write(id)
+	defer wt.Close()
+	wt.Value()
+	steps := 2 + r.Intn(2)
+	for k := 0; k < steps; k++ {
+		before := e.model[id]
+		m := idxMut{ID: id}
+		key := idxKeys[r.Intn(len(idxKeys))]
+		if r.Intn(6) == 0 {
+			key = ""
+		}
+		k2 := idxKeys[r.Intn(5)]
+		if r.Intn(3) == 0 {
+			k2 = ""
+		}
+		var err error
+		switch {
+		case before == nil:
+			m.Op, m.K, m.K2 = "create", key, k2
+			v := mkValue2(e.typed, fmt.Sprintf("u%d.%d", n, k), key, k2)
+			if err = wt.Create(v); err == nil {
+				e.model[id] = v
+			}
+		case r.Intn(4) == 0:
+			m.Op = "delete"
+			if err = wt.Delete(); err == nil {
+				delete(e.model, id)
+			}
+		default:
+			m.Op, m.K, m.K2 = "update", key, k2
+			v := mkValue2(e.typed, fmt.Sprintf("u%d.%d", n, k), key, k2)
+			if err = wt.Update(v); err == nil {
+				e.model[id] = v
+			}
+		}
+		if err != nil {
+			m.Err = err.Error()
+		} else {
+			atomic.AddInt64(&idxTasksEnqueued, 1)
+		}
+		if r.Intn(2) == 0 {
+			wt.Value()
+		}
+		muts = append(muts, m)
+		befores = append(befores, before)
+		afters = append(afters, e.model[id])
+	}
+	return
 }
 
 // idxBattery returns the query battery for the current model.
@@ -409,6 +469,11 @@ func c13History(c *core.Ctx, env *idxEnv, r *rand.Rand, h int) {
 	for s := 0; s < steps; s++ {
 		for k := 0; k < 5+r.Intn(25); k++ {
 			n++
+			if r.Intn(5) == 0 {
+				ms, _, _ := env.mutateTxn(r, ids, n)
+				hist = append(hist, ms...)
+				continue
+			}
 			m, _, _ := env.mutate(r, ids, n)
 			hist = append(hist, m)
 		}
